@@ -30,6 +30,19 @@ def table(chk, rel, q, kind):
         chk.check(ok, 'C06-R1', rel, q, f'axis {a} geometry', f'p{a} = {p}; i{a} = round(p{a}); d{a} = i{a} - p{a}',
                   f'axis {a}: p = {p} (need {want}), round var {S.i.get(a)}, offset var {[k for k, v in S.dvar.items() if v == a]}',
                   node=S.loop, nf=str(p))
+    # the integer type of the grid extents and cell indices holds ordinary axis lengths: np.int16(40000) wraps to -25536, the cell
+    # scale g/box changes sign and every deposit lands in a mirrored cell (total conserved, so a sum check does not notice)
+    narrow = []
+    for n in walk_no_nested(fn):
+        if isinstance(n, ast.Assign) and len(n.targets) == 1 and isinstance(n.targets[0], ast.Name) and isinstance(n.value, ast.Attribute) \
+                and dotted(n.value) in ('np.int16', 'np.int8', 'np.uint16', 'np.uint8'):
+            narrow.append(n)
+        if isinstance(n, ast.Call) and dotted(n.func) in ('np.int16', 'np.int8', 'np.uint16', 'np.uint8') and n.args and \
+                ('shape' in unparse(n.args[0]) or 'round' in unparse(n.args[0])):
+            narrow.append(n)
+    chk.check(not narrow, 'C06-R1', rel, q, 'grid extents and cell indices are held in an integer type of at least 32 bits', '',
+              f'{unparse(narrow[0])[:50] if narrow else ""}: a 16-bit (or narrower) type wraps for an axis of 32768 cells or more (anisotropic grids, the (nx, ny, 1) '
+              '2-D form): extents become negative or zero and the kernel is no longer centred on the particle', node=narrow[0] if narrow else fn, nontrivial=False)
     # R2/R3/R4 weights
     wtab = {}
     for name in S.weights:
